@@ -252,26 +252,36 @@ def rule_ta_lossy_json(repo, col):
     # a value is dropped only when it equals zero
     f = repo.func(TABLE, 'Table.to_json')
     zero_tests = []
+    guards = []
     for n in body_walk(f):
         if isinstance(n, ast.If) and isinstance(n.test, ast.Compare):
-            t = n.test
-            if isinstance(t.ops[0], ast.NotEq) and isinstance(
-                    t.comparators[0], ast.Constant) and \
-                    t.comparators[0].value in (0, 0.0):
-                zero_tests.append(n)
-            elif isinstance(t.ops[0], (ast.Gt, ast.GtE, ast.Lt)) and \
-                    isinstance(t.comparators[0], ast.Constant) and \
-                    isinstance(t.comparators[0].value, (int, float)) and \
-                    any(isinstance(c, ast.Call) and isinstance(
-                        c.func, ast.Attribute) and c.func.attr == 'append'
-                        for c in ast.walk(n)):
-                col.bad(rule, TABLE, 'Table.to_json', 'data:drop-test', t,
-                        'values are written only when %s: negative or '
-                        'small values are dropped' % unparse(t))
-    col.check(bool(zero_tests), rule, TABLE, 'Table.to_json',
-              'data:drop-test', zero_tests[0].test if zero_tests else f,
-              'an entry is skipped only when it compares equal to 0',
-              'no `!= 0` test guards the written entries')
+            guards.append((n.test, any(
+                isinstance(c, ast.Call) and isinstance(c.func, ast.Attribute)
+                and c.func.attr == 'append' for c in ast.walk(n))))
+        elif isinstance(n, (ast.ListComp, ast.GeneratorExp)):
+            for g in n.generators:
+                for t in g.ifs:
+                    if isinstance(t, ast.Compare):
+                        guards.append((t, True))
+    for t, writes in guards:
+        if isinstance(t.ops[0], ast.NotEq) and isinstance(
+                t.comparators[0], ast.Constant) and \
+                t.comparators[0].value in (0, 0.0):
+            zero_tests.append(t)
+        elif isinstance(t.ops[0], (ast.Gt, ast.GtE, ast.Lt)) and \
+                isinstance(t.comparators[0], ast.Constant) and \
+                isinstance(t.comparators[0].value, (int, float)) and \
+                not isinstance(t.comparators[0].value, bool) and writes and \
+                any(isinstance(x, ast.Name) and x.id in ('val', 'v', 'value')
+                    or isinstance(x, ast.Call) and call_name(x) == 'float'
+                    for x in ast.walk(t.left)):
+            col.bad(rule, TABLE, 'Table.to_json', 'data:drop-test', t,
+                    'values are written only when %s: negative or '
+                    'small values are dropped' % unparse(t))
+    col.soft(bool(zero_tests), rule, TABLE, 'Table.to_json',
+             'data:drop-test', zero_tests[0] if zero_tests else f,
+             'an entry is skipped only when it compares equal to 0',
+             'no `!= 0` test guards the written entries')
 
 
 def rule_sb_jsonpaths(repo, col):
@@ -637,8 +647,23 @@ def rule_ag_tsvsep(repo, col):
         col.unknown(rule, CONV, '<module>', 'registries', None,
                     'registries are not dict literals')
         return
-    tk = {const_str(k): v for k, v in zip(types.keys, types.values)}
-    fk = {const_str(k): v for k, v in zip(fmts.keys, fmts.values)}
+    def as_lambda(v):
+        # a registry entry naming a module-level one-return function is
+        # read like the equivalent lambda
+        if isinstance(v, ast.Name) and v.id in m.defs and isinstance(
+                m.defs[v.id], ast.FunctionDef):
+            fd = m.defs[v.id]
+            body = [st for st in fd.body if not (
+                isinstance(st, ast.Expr) and isinstance(st.value,
+                                                        ast.Constant))]
+            if len(body) == 1 and isinstance(body[0], ast.Return) and \
+                    body[0].value is not None:
+                return ast.Lambda(args=fd.args, body=body[0].value)
+        return v
+    tk = {const_str(k): as_lambda(v)
+          for k, v in zip(types.keys, types.values)}
+    fk = {const_str(k): as_lambda(v)
+          for k, v in zip(fmts.keys, fmts.values)}
     for k in sorted(fk):
         col.check(k in tk, rule, CONV, '<module>', 'key:%s' % k, fmts,
                   'formatter key has a processing function',
@@ -665,9 +690,9 @@ def rule_ag_tsvsep(repo, col):
     nt = tk.get('naive')
     if isinstance(nf, ast.Name) or isinstance(nf, ast.Lambda):
         okn = (dotted(nf) == 'str') if isinstance(nf, ast.Name) else True
-        col.check(okn and nt is not None, rule, CONV, '<module>',
-                  'inverse:naive', fmts, 'naive: str / identity',
-                  'naive pair changed')
+        col.soft(okn and nt is not None, rule, CONV, '<module>',
+                 'inverse:naive', fmts, 'naive: str / identity',
+                 'naive pair not recognised')
 
 
 RULE_TEXT = {
